@@ -281,6 +281,14 @@ class ParamikoTransport(Transport):
             )
             self.logger.critical(msg)
             raise ScrapliConnectionError(msg) from exc
+        if not buf:
+            # paramiko returns an empty string once the channel stream has closed
+            msg = (
+                "encountered EOF reading from transport; typically means the device closed the "
+                "connection"
+            )
+            self.logger.critical(msg)
+            raise ScrapliConnectionError(msg)
         return buf
 
     def write(self, channel_input: bytes) -> None:
